@@ -605,7 +605,11 @@ func runCLI(c *run.Ctx, cs *Case, dir string) outcome {
 	d := &cdrv{c: c, cs: cs}
 	out := runLines(c, cs, dir, d)
 	if d.env.Load() {
-		return outcome{inconclusive: "cli level: the rare process could not follow for an environmental reason: " + run.Q(d.stderr.String())}
+		// one history not judged (the process never followed the file: removed before it was opened,
+		// inotify limits ...); a note and a counter, not the verdict of the whole run
+		c.Count("cli_histories_not_judged_environment", 1)
+		c.Note("cli level: one history not judged, the rare process could not follow for an environmental reason: " + run.Q(d.stderr.String()))
+		return outcome{}
 	}
 	return out
 }
